@@ -7,7 +7,7 @@
                           fired: per executing callback-enabled node (top-level graph = path [],
                                  sub graph nodes, components) the handlers whose OnStart fired
                                  there, sorted (with multiplicity). *)
-From Eino Require Import Base.Util Model.Options.
+From Eino Require Import Base.Util Model.Options Model.OptionsResume.
 
 Inductive obs : Type :=
 | OErr
@@ -21,6 +21,14 @@ Definition firings (rs : list report) : list (path * list N) :=
 
 Definition model_obs (F : forest) (c : call) : obs :=
   match run F c with
+  | Ok rs => OOk (deliveries rs) (firings rs)
+  | Err e => if N.leb e 5 then OErr else OModelBad e
+  | Panic => OModelBad 0
+  end.
+
+(* a call of a session: entered with what the checkpoint store holds (None: a fresh start) *)
+Definition model_obs_r (F : forest) (ck : option ckpt) (c : call) : obs :=
+  match resume F c ck with
   | Ok rs => OOk (deliveries rs) (firings rs)
   | Err e => if N.leb e 5 then OErr else OModelBad e
   | Panic => OModelBad 0
@@ -42,11 +50,23 @@ Definition obs_eqb (a b : obs) : bool :=
   | _, _ => false
   end.
 
+(* Case: one forest, the calls run concurrently / one after the other, each from START.
+   CaseR: a session on one checkpoint id — call 0 starts the run, every later call resumes it
+          where the previous one was interrupted; each call comes with the forest whose n_runs
+          are the nodes that executed in that call (tree unfolding: one graph per graph node)
+          and with the checkpoint it was entered with, as far as the public InterruptInfo of
+          the interrupted call shows it (interrupt-before / rerun nodes and interrupted sub
+          graphs are inputs of the checkpoint, the latter with their own nested checkpoint). *)
 Inductive ccase : Type :=
-| Case (F : forest) (calls : list (call * obs)).
+| Case (F : forest) (calls : list (call * obs))
+| CaseR (steps : list (forest * option ckpt * call * obs)).
 
 Definition bad (c : ccase) : bool :=
   match c with
   | Case F calls => negb (forallb (fun co => obs_eqb (model_obs F (fst co)) (snd co)) calls)
+  | CaseR steps =>
+      negb (forallb (fun s => match s with
+                              | (F, ck, c, o) => obs_eqb (model_obs_r F ck c) o
+                              end) steps)
   end.
 Definition mismatches (cs : list ccase) : list nat := mismatches_from bad 0 cs.
